@@ -9,6 +9,8 @@ C->S: Scope operation traces of real renders (a recording subclass is swapped
 """
 from __future__ import annotations
 
+from harness import REPO_SRC  # noqa: E402
+
 import glob
 import json
 import os
@@ -316,13 +318,13 @@ def uninstall_recorder(tok):
 
 def record_renders(ctx, rnd, nrand):
     """traces of real renders: golden templates of the repository + generated programs"""
-    sys.path.insert(0, "/repo/src")
+    sys.path.insert(0, REPO_SRC)
     rec, tok = install_recorder()
     try:
         from chameleon import PageTemplate
         from chameleon.zpt.template import PageTemplateFile
         from chameleon.zpt.loader import TemplateLoader
-        inputs = "/repo/src/chameleon/tests/inputs"
+        inputs = REPO_SRC + "/chameleon/tests/inputs"
         loader = TemplateLoader(inputs)
         ngold = 0
         for path in sorted(glob.glob(os.path.join(inputs, "*.pt"))):
